@@ -29,6 +29,8 @@ pub struct MObj {
     pub born_phase: u8,
     /// index of the top-level step during which it was allocated
     pub born_step: u32,
+    /// its destructor was made to unwind (fault injection): the collector may never release its block
+    pub fault_exempt: bool,
 }
 
 #[derive(Clone, Debug)]
